@@ -1,6 +1,7 @@
 package main
 
 import (
+	"encoding/json"
 	"flag"
 	"fmt"
 	"os"
@@ -27,6 +28,9 @@ type PropSpec struct {
 	RuleText    string
 	Assumptions []string
 	Trusted     []string
+	Level       string   // MANIFEST level_claimed.text
+	Note        string   // MANIFEST level_note
+	Technique   string   // MANIFEST technique
 	Rules       []string // rule ids this property runs (used to pick controls)
 	Floors      []Floor
 	Run         func(c *Ctx)
@@ -48,6 +52,7 @@ func main() {
 	verif := flag.String("verif", "/verif", "verif directory (evidence/, replay/, known_findings.json)")
 	replay := flag.String("replay", "", "replay file: re-evaluate and print that single obligation")
 	list := flag.Bool("list", false, "list properties")
+	manifest := flag.Bool("manifest", false, "print MANIFEST.json generated from the property registry")
 	dump := flag.String("dump", "", "debug: print the E1 facts reaching every sink site of the named function")
 	flag.Parse()
 	if *dump != "" {
@@ -71,6 +76,10 @@ func main() {
 		return
 	}
 
+	if *manifest {
+		writeManifest()
+		return
+	}
 	if *list {
 		var ids []string
 		for id := range registry {
@@ -162,3 +171,55 @@ func runProp(ps *PropSpec, repo, verif, tier string, seed int, replay string) (c
 
 // rules whose expected count on the tree is far from zero and that have no synthetic control
 var noControlNeeded = map[string]bool{}
+
+var allProps = []string{"C01", "C02", "C03", "C04", "C05", "C06", "C07", "C08", "C09", "C10", "C11", "C12", "C13", "C14", "C15", "C16", "C17", "C18", "C19", "C20"}
+
+func writeManifest() {
+	var checks []any
+	var na []any
+	var served []string
+	for _, id := range allProps {
+		ps := registry[id]
+		if ps == nil || ps.Level == "" {
+			na = append(na, map[string]any{"property_id": id, "reason": "structural rules designed (DESIGN.md section 5) but not built yet; nothing is claimed for this property until they are"})
+			continue
+		}
+		served = append(served, id)
+		tech := ps.Technique
+		if tech == "" {
+			tech = "static analysis: repository-specific must-facts dataflow over go/cfg with typed patterns"
+		}
+		checks = append(checks, map[string]any{
+			"property_id":         id,
+			"quick_cmd":           "./run.sh " + id + " quick",
+			"thorough_cmd":        "./run.sh " + id + " thorough",
+			"evidence_file":       "evidence/" + id + ".json",
+			"replay_cmd_template": "cat {path}",
+			"engine":              "oidcheck",
+			"level_claimed":       map[string]any{"category": "other", "text": ps.Level, "design_ref": "DESIGN.md section 5, " + id},
+			"level_note":          ps.Note,
+			"technique":           tech,
+		})
+	}
+	m := map[string]any{
+		"version":   1,
+		"setup_cmd": "./setup.sh",
+		"hooks": map[string]any{
+			"guard":            "verif",
+			"enable":           "none needed: the checks are static and read /repo's working tree; no hook commits exist",
+			"baseline_off_cmd": "./baseline.sh",
+			"source_commits":   []string{},
+			"add_only":         true,
+		},
+		"engines": []any{map[string]any{"name": "oidcheck", "path": "checker", "serves_properties": served,
+			"kind_free_text": "repository-specific static analyser (go/packages + go/types + go/cfg + go/ssa), see DESIGN.md"}},
+		"checks":         checks,
+		"not_applicable": na,
+		"notes":          "All checks are static (no zitadel/oidc code is executed). Genuine defects found on the pinned tree were repaired by fix: commits in /repo and are listed in known_findings.json as fixed entries.",
+	}
+	if na == nil {
+		m["not_applicable"] = []any{}
+	}
+	b, _ := json.MarshalIndent(m, "", " ")
+	fmt.Println(string(b))
+}
